@@ -1,12 +1,12 @@
 #!/bin/bash
 # usage: try_patch.sh <Cnn> <patch.diff> [tier]   -- applies the patch to a scratch worktree of /repo, runs the check there
 set -u
-PID=$1; PATCH=$2; TIER=${3:-quick}
+PID=$1; PATCH=$(realpath $2); TIER=${3:-quick}
 WT=$(mktemp -d /tmp/pyvc_wt.XXXXXX)
 git -C /repo worktree add -q --detach "$WT" HEAD >/dev/null 2>&1
 # carry uncommitted repo state too
 git -C /repo diff HEAD | git -C "$WT" apply 2>/dev/null
-if ! git -C "$WT" apply "$PATCH"; then echo "PATCH DOES NOT APPLY"; git -C /repo worktree remove --force "$WT"; exit 9; fi
+if ! git -C "$WT" apply --3way "$PATCH" 2>/dev/null; then echo "PATCH DOES NOT APPLY"; git -C /repo worktree remove --force "$WT"; exit 9; fi
 PYVC_REPO="$WT" python3-vt /verif/check.py "$PID" --tier "$TIER"
 RC=$?
 git -C /repo worktree remove --force "$WT"
